@@ -270,6 +270,21 @@ def alias_script(seed):
     return s.text()
 
 
+def resolve_script(seed):
+    """one unknown parameter handle solved by two vnacal_new_t on two grids
+    with a different number of points (and read back after each solve): the
+    stored solution of the first solve is replaced by the second one"""
+    import gen_handles
+    for k in range(200):
+        rng = np.random.default_rng([seed, 1212, 88, k])
+        g = gen_handles.ResolveGen(rng)
+        text = g.generate()
+        if text and g.shape[1] == "other_count" and g.shape[-1] == "unknown" \
+                and text.count("\n") < 120:
+            return text
+    return None
+
+
 def generated_scripts(seed, n, nops=50):
     """call histories from the C03 generator (valid / boundary / invalid
     arguments over every object kind, deep calibration states, files):
@@ -290,6 +305,7 @@ def all_scripts(seed):
         ("cal_trl", selfcal_script(seed, "trl")),
         ("cal_lm_corr", selfcal_script(seed, "lm")),
         ("param", param_script(seed)),
+        ("resolve", resolve_script(seed)),
         ("alias", alias_script(seed)),
         ("property", property_script(seed)),
         ("vnadata", vnadata_script(seed)),
@@ -448,7 +464,7 @@ def work(chunk_id, payload):
 def main():
     chk = R.Check(PROP, level="fault_enumeration")
     binary = chk.build("fi")
-    scripts = all_scripts(chk.seed)
+    scripts = [(n_, t_) for n_, t_ in all_scripts(chk.seed) if t_]
     ngen = int((8 if chk.tier == "quick" else 96) * chk.args.scale)
     scripts += generated_scripts(chk.seed, ngen)
     payloads = []
@@ -472,7 +488,7 @@ def main():
         nfail = sum(1 for e in base_events if is_fail(e))
         chk.count("fault_free_failed_events", nfail)
         if chk.tier == "quick":
-            step = 1 if name in ("param", "property", "alias") else \
+            step = 1 if name in ("param", "property", "alias", "resolve") else \
                 (5 if name.startswith("gen") else 7)
             off = chk.seed % step
             ks = list(range(1 + off, K + 1, step))
@@ -489,7 +505,7 @@ def main():
     chk.finish(
         rule="for each scripted history and each generated API history "
              "(C03 generator: quick 8, thorough 96) every allocation index k "
-             "(quick: every k of the three short scripts, every 7th k of the "
+             "(quick: every k of the four short scripts, every 7th k of the "
              "other scripts, every 5th of the generated ones) made from "
              "a libvna call site is failed once; the faulted call must succeed "
              "or fail with ENOMEM, the process must stay clean under "
